@@ -8,6 +8,7 @@ import Y0.Driver.Expr
 import Y0.Driver.Id
 import Y0.Driver.Latent
 import Y0.Driver.Cf
+import Y0.Driver.Ctf
 import Y0.Driver.Transport
 
 open Y0 Y0.Driver
@@ -23,6 +24,7 @@ def dispatch (line : String) : String :=
       | "id" => handleId op args
       | "latent" => handleLatent op args
       | "cf" => handleCf op args
+      | "ctf" => handleCtf op args
       | "transport" => handleTransport op args
       | _ => none
     match r with
